@@ -179,6 +179,19 @@ def _view_list(view, hist, want, what):
         _expect("%r in %s" % (e, what), _call(lambda: e in view), ("value", True), hist)
 
 
+def _no_alias(g, hist, queries):
+    """what a per-vertex query hands out is not the graph's own row: a caller that extends the list it was given does not change the graph"""
+    for q, u, want in queries:
+        try:
+            raw = getattr(g, q)(u)
+        except Raised:
+            continue
+        if isinstance(raw, list):
+            raw.append(99)
+            raw.insert(0, -1)
+            _expect("%s(%d) after the caller changed the list it was given" % (q, u), _call(getattr(g, q), u), ("value", want), hist)
+
+
 def _views_graph(g, m, hist):
     n = m.n
     _expect("number_of_vertices()", _call(g.number_of_vertices), ("value", n), hist)
@@ -198,6 +211,7 @@ def _views_graph(g, m, hist):
             _expect("degree(%d)" % u, _call(g.degree, u), ("raises", "ValueError"), hist)
     _expect("(0, 1) in edges()", _call(lambda: (0, 1) in ev), ("value", False), hist)
     _expect("is_directed()", _call(g.is_directed), ("value", False), hist)
+    _no_alias(g, hist, [("neighbors", u, m.nbrs(u)) for u in range(1, n + 1)])
 
 
 def _views_digraph(g, m, hist):
@@ -223,6 +237,8 @@ def _views_digraph(g, m, hist):
                 _expect("%s(%d)" % (q, u), _call(getattr(g, q), u), ("raises", "ValueError"), hist)
     _expect("is_dag()", bool(_call(g.is_dag)[1]), all(u < v for (u, v) in m.E), hist)
     _expect("is_directed()", _call(g.is_directed), ("value", True), hist)
+    _no_alias(g, hist, [("successors", u, sorted(v for v in range(1, n + 1) if m.has(u, v))) for u in range(1, n + 1)] +
+              [("predecessors", u, sorted(v for v in range(1, n + 1) if m.has(v, u))) for u in range(1, n + 1)])
 
 
 def _views_bip(g, m, hist):
